@@ -28,7 +28,7 @@ for d in sorted(glob.glob(os.path.join(VERIF, 'seeded', '*', 'meta.json'))):
 n = len(rows)
 txt = """### 8.7 Independent seeded changes (`seeded/`, `tools/seed_eval.py`, `bin/selftest seeded`)
 
-%d changes were written in thirteen rounds by fresh sub-agents that saw only the
+%d changes were written in fourteen rounds by fresh sub-agents that saw only the
 text of one property and a scratch worktree (nothing from `/verif`; from round 2
 on they were also given a list of the *ideas* already used, so that they would
 look elsewhere; round 4 asked for cooperating edits in two files and at least
@@ -45,7 +45,10 @@ latitude - and for bookkeeping and metadata rather than record values; round 12
 for code adjacent to the anchors (query-text parsing, helpers, defaults) and
 for mistakes that need size or repetition; round 13 for what a linter fix or
 an automatic modernisation would introduce, and for restructured control flow
-that skips a step in a rare state). Each was asked for a realistic change that still
+that skips a step in a rare state; round 14, two per property, for one specific
+coincidence each - a read or chunk boundary at a named feature of the text, a
+named clause combination, a named fault point - and for the JavaScript engine
+and the pandas / sqlite front-ends). Each was asked for a realistic change that still
 compiles, leaves the repository's tests unchanged and needs something specific
 to manifest, with a demonstration. For each one `tools/seed_eval.py` confirmed,
 in scratch worktrees that were removed afterwards: the patch applies to HEAD;
